@@ -175,6 +175,10 @@ pub struct Outcome {
     pub panics: Vec<PanicRec>,
     pub collateral_op: Option<(String, Result<(), String>)>,
     pub builder_before_balance: Option<TransactionBuilder>,
+    /// key hashes the caller declared as additional signers on the inputs builder
+    pub extra_signers: Vec<Vec<u8>>,
+    /// the builder's inputs at the time calc_script_data_hash was called
+    pub inputs_at_hash_time: Option<Vec<(Vec<u8>, u64)>>,
 }
 
 pub struct Scn<'a> {
@@ -190,6 +194,7 @@ pub struct Scn<'a> {
     pub net: u8,
     pub used_langs: Vec<u8>,
     pub panics: Vec<PanicRec>,
+    pub extra_signers: Vec<Vec<u8>>,
 }
 
 pub fn val_to_csl(v: &Val) -> Value {
@@ -210,7 +215,7 @@ pub fn val_to_csl(v: &Val) -> Value {
 impl<'a> Scn<'a> {
     pub fn new(r: &'a mut Rng, ring: &'a KeyRing, f: Focus) -> Scn<'a> {
         let net = r.below(2) as u8;
-        Scn { r, ring, f, utxos: vec![], log: vec![], markers: vec![], next_marker: 1000, next_tx: 1, declared_refs: vec![], net, used_langs: vec![], panics: vec![] }
+        Scn { r, ring, f, utxos: vec![], log: vec![], markers: vec![], next_marker: 1000, next_tx: 1, declared_refs: vec![], net, used_langs: vec![], panics: vec![], extra_signers: vec![] }
     }
     fn p(&mut self, num: u64) -> bool {
         self.r.below(16) < num
@@ -968,6 +973,14 @@ pub fn run_scenario(r: &mut Rng, ring: &KeyRing, f: Focus) -> Option<Outcome> {
     if s.p(2) {
         let _ = g!(s, "set_current_treasury_value", tb.set_current_treasury_value(&BigNum::from(1 + s.r.below(1 << 40))));
     }
+    if s.p(3) {
+        // extra witness datums: sometimes the very datum a Plutus spend will supply too (7000..7002)
+        for _ in 0..1 + s.r.below(2) {
+            let d = PlutusData::new_integer(&BigInt::from_str(&(if s.r.bool() { 7000 + s.r.below(3) } else { 9000 + s.r.below(3) }).to_string()).unwrap());
+            g!(s, "add_extra_witness_datum", tb.add_extra_witness_datum(&d));
+            s.log.push("extra witness datum".into());
+        }
+    }
     if s.p(s.f.refs) {
         for _ in 0..1 + s.r.below(3) {
             let k = s.key_ix();
@@ -1040,11 +1053,18 @@ pub fn run_scenario(r: &mut Rng, ring: &KeyRing, f: Focus) -> Option<Outcome> {
                 let addr = s.script_address(&ring.natives[si].hash());
                 let i = s.new_utxo(&addr, val.clone());
                 let o = s.outpoint(i);
-                let src = s.native_source(si);
-                if use_direct_api {
+                let h = ring.natives[si].hash().to_bytes();
+                let declared_as_ref = s.declared_refs.iter().any(|(hh, _)| *hh == h);
+                if use_direct_api && !declared_as_ref {
+                    // the deprecated API takes the script itself (inline)
+                    s.log.push(format!("inline-script {}", hx(&h)));
                     g!(s, "add_native_script_input", tb.add_native_script_input(&ring.natives[si], &Scn::tx_input(&o), &val_to_csl(&val)));
-                    // the deprecated API takes the script itself: record it as inline if it was declared as ref
+                } else if use_direct_api {
+                    // the deprecated direct API has no reference-script variant: this input is not added
+                    s.log.push(format!("native input n{} skipped (script already declared as reference)", si));
+                    continue;
                 } else {
+                    let src = s.native_source(si);
                     let u = s.csl_utxo(i, None, None);
                     let _ = g!(s, "inputs.add_native_script_utxo", inputs_b.add_native_script_utxo(&u, &src));
                 }
@@ -1103,6 +1123,8 @@ pub fn run_scenario(r: &mut Rng, ring: &KeyRing, f: Focus) -> Option<Outcome> {
         if s.p(4) {
             let k = s.key_ix();
             inputs_b.add_required_signer(&ring.keys[k].hash);
+            s.extra_signers.push(ring.keys[k].hash.to_bytes());
+            s.log.push(format!("inputs builder: add_required_signer key{}", k));
         }
         g!(s, "set_inputs", tb.set_inputs(&inputs_b));
     }
@@ -1160,20 +1182,26 @@ pub fn run_scenario(r: &mut Rng, ring: &KeyRing, f: Focus) -> Option<Outcome> {
 
     // ---------------------------------------------------------------- script data hash (before or after balancing)
     let hash_after = any_plutus && s.p(2);
-    let mut cost_models = None;
+    let mut cost_models: Option<(BTreeMap<u8, Vec<i128>>, Vec<(Vec<u8>, u64)>)> = None;
     let mut do_hash = |s: &mut Scn, tb: &mut TransactionBuilder| {
         let (cm, model) = cost_models_for(&s.used_langs.clone(), s.r);
         let r = g!(s, "calc_script_data_hash", tb.calc_script_data_hash(&cm));
         s.log.push(format!("calc_script_data_hash langs={:?} -> {}", model.keys().collect::<Vec<_>>(), r.as_ref().map(ok_str).unwrap_or("PANIC".into())));
         if let Some(Ok(())) = r {
-            Some(model)
+            let ins = collect_inputs(tb);
+            let mut v = vec![];
+            for i in 0..ins.len() {
+                let x = ins.get(i);
+                v.push((x.transaction_id().to_bytes(), x.index() as u64));
+            }
+            v.sort();
+            Some((model, v))
         } else {
             None
         }
     };
-    if (any_plutus || s.p(1)) && !hash_after {
-        cost_models = do_hash(&mut s, &mut tb);
-    }
+    let want_hash_before = (any_plutus || s.p(1)) && !hash_after;
+    let mut hash_done = false;
 
     // ---------------------------------------------------------------- balancing
     // size what is still missing
@@ -1212,6 +1240,10 @@ pub fn run_scenario(r: &mut Rng, ring: &KeyRing, f: Focus) -> Option<Outcome> {
             1 if any_plutus => Balance::InputsFromAndChangeWithCollateralReturn(st, *s.r.pick(&[150u64, 100, 0, 1000, 151])),
             _ => Balance::InputsFromAndChange(st),
         };
+        if want_hash_before && !matches!(balance, Balance::InputsFromThenChange(_)) {
+            cost_models = do_hash(&mut s, &mut tb);
+            hash_done = true;
+        }
     } else {
         // top up with one more key input so that add_change_if_needed can succeed
         let mut v = Val::coin(0);
@@ -1241,6 +1273,10 @@ pub fn run_scenario(r: &mut Rng, ring: &KeyRing, f: Focus) -> Option<Outcome> {
             s.log.push(format!("top-up key input key{} coin={} assets={} -> {}", k, v.coin, v.assets.len(), r.as_ref().map(ok_str).unwrap_or("PANIC".into())));
         }
         balance = if s.p(3) { Balance::AddChangeWithDatum } else { Balance::AddChange };
+        if want_hash_before {
+            cost_models = do_hash(&mut s, &mut tb);
+            hash_done = true;
+        }
     }
     let tb_before = tb.clone();
     pre_inputs = {
@@ -1270,6 +1306,9 @@ pub fn run_scenario(r: &mut Rng, ring: &KeyRing, f: Focus) -> Option<Outcome> {
             .unwrap_or(Err("PANIC".into())),
         Balance::InputsFromThenChange(st) => {
             let r1 = g!(s, "add_inputs_from", tb.add_inputs_from(&offered_csl, strategy(st)));
+            if want_hash_before && !hash_done {
+                cost_models = do_hash(&mut s, &mut tb);
+            }
             match r1 {
                 Some(Ok(())) => g!(s, "add_change_if_needed", tb.add_change_if_needed(&change_addr)).map(|r| r.map(|b| format!("{}", b)).map_err(|e| format!("{:?}", e))).unwrap_or(Err("PANIC".into())),
                 Some(Err(e)) => Err(format!("add_inputs_from: {:?}", e)),
@@ -1312,7 +1351,8 @@ pub fn run_scenario(r: &mut Rng, ring: &KeyRing, f: Focus) -> Option<Outcome> {
         markers: s.markers,
         log: s.log,
         fee_mode,
-        cost_models,
+        inputs_at_hash_time: cost_models.as_ref().map(|x| x.1.clone()),
+        cost_models: cost_models.map(|x| x.0),
         script_hash_called_last: !hash_after || true,
         offered,
         pre_inputs,
@@ -1321,6 +1361,7 @@ pub fn run_scenario(r: &mut Rng, ring: &KeyRing, f: Focus) -> Option<Outcome> {
         panics: s.panics,
         collateral_op,
         builder_before_balance: Some(tb_before),
+        extra_signers: s.extra_signers,
     })
 }
 
